@@ -244,6 +244,68 @@ fn check_random(c: &KmerCase, _ctx: &Ctx) -> Outcome {
     }
 }
 
+// ---- the unpacked form a user reads: the rows `ska nk --full-info` prints ----
+
+#[derive(Clone, Debug, Serialize, Deserialize)]
+pub struct ListingCase {
+    pub k: usize,
+    pub kmers: Vec<Vec<u8>>,
+    /// leading / trailing homopolymer runs forced onto some k-mers (zero and all-one bit groups)
+    pub runs: Vec<(u8, u8, u8)>,
+}
+
+fn listing_strategy() -> BoxedStrategy<ListingCase> {
+    gen::k_strategy()
+        .prop_flat_map(|k| (Just(k), proptest::collection::vec(proptest::collection::vec(0u8..4, k), 1..40), proptest::collection::vec((0u8..4, 0u8..40, any::<u8>()), 0..6)))
+        .prop_map(|(k, kmers, runs)| ListingCase { k, kmers, runs })
+        .boxed()
+}
+
+fn check_listing(c: &ListingCase, _ctx: &Ctx) -> Outcome {
+    let k = c.k;
+    let h = (k - 1) / 2;
+    let mut rows = std::collections::BTreeMap::new();
+    for (i, b) in c.kmers.iter().enumerate() {
+        let mut w = gen::bases_to_seq(b);
+        if let Some((base, len, at)) = c.runs.get(i) {
+            // a run of one base at the start, around the 32-base word boundary, or at the end
+            let len = (*len as usize).min(k);
+            let start = match at % 3 { 0 => 0, 1 => k - len, _ => (k.saturating_sub(33)).min(k - len) };
+            for x in w.iter_mut().skip(start).take(len) {
+                *x = model::BASES[*base as usize & 3];
+            }
+        }
+        let mut arms = w[..h].to_vec();
+        arms.extend_from_slice(&w[h + 1..]);
+        rows.entry(arms).or_insert_with(|| vec![w[h], if i % 2 == 0 { b'-' } else { model::comp(w[h]) }]);
+    }
+    let t = model::Table { names: vec!["one".to_string(), "two".to_string()], rows };
+    let text = |wide: bool| -> Result<String, String> {
+        if wide {
+            make_array::<u128>(&t, k, false, false).map(|a| format!("{a}\n{a:?}"))
+        } else {
+            make_array::<u64>(&t, k, false, false).map(|a| format!("{a}\n{a:?}"))
+        }
+    };
+    let mut widths = vec![true];
+    if k <= 31 {
+        widths.push(false);
+    }
+    for wide in widths {
+        let r = std::panic::catch_unwind(std::panic::AssertUnwindSafe(|| text(wide)));
+        let txt = match r {
+            Ok(Ok(t)) => t,
+            Ok(Err(e)) => return Outcome::Infra(e),
+            Err(_) => return Outcome::Fail(format!("k={k} {}-bit: printing the table panicked", if wide { 128 } else { 64 })),
+        };
+        let res = model::parse_nk(&txt).and_then(|nk| model::compare_nk(&nk, &t, k, false, None));
+        if let Err(e) = res {
+            return Outcome::Fail(format!("k={k} {}-bit: the listing of a table of {} split k-mers does not show the k-mers that were packed: {e}", if wide { 128 } else { 64 }, t.rows.len()));
+        }
+    }
+    pass(true, key_of(&(k, &c.kmers, &c.runs)), vec![if k >= 35 { "k>=35(two 64-bit words)" } else { "k<=33" }])
+}
+
 #[derive(Clone, Debug, Serialize, Deserialize)]
 pub struct RollCase {
     pub k: usize,
@@ -328,6 +390,7 @@ fn stages(tier: Tier) -> Vec<Box<dyn Stage>> {
         enum_stage("exhaustive", "complete enumeration of all 4^k k-mers for k = 5,7,9,11 (quick) and also 13 (thorough): encode/decode/skalo-decode round trip, rev_comp == packing of the reverse-complemented string and involution for n=k-1 and n=k, masks partition the bits, single-window SplitKmer == canonical form from scratch (both strand modes), hash(w)==hash(rc w) (read hashes through SplitKmer::get_hash); u64 and u128. Non-trivial: k-mer differs from its own reverse complement (always true for odd k)", exhaustive),
         enum_stage("structured", "for every valid k (u64 for k<=31, u128 for all): homopolymers of each base, every single-base deviation at every position on every homopolymer background, three periodic patterns; same identities", structured),
         gen_stage_show("random_kmers", "generated: uniformly random k-mers for boundary-weighted k over all 30 values; same identities. Every case non-trivial; distinct by string", tier.pick(200_000, 4_000_000), 500, kmer_strategy, check_random, |c| json!(lossy(&gen::bases_to_seq(&c.bases)))),
+        gen_stage_show("listing", "generated: tables of 1-39 random split k-mers (some with a homopolymer run at the start, at the end or across the 32-base word boundary) for every valid k, packed through the public API into 64-bit (k<=31) and 128-bit arrays; the rows that ska nk --full-info prints (Display + Debug of the array) must show exactly the packed k-mers and bases. Every case non-trivial.", tier.pick(8000, 120_000), 300, listing_strategy, check_listing, |c| json!({"k": c.k, "kmers": c.kmers.len()})),
         gen_stage_show("rolling", "generated: records from op-scripts (N runs, repeats, self-rc arms, lower case); the sequence of (k-mer, middle base, strand flag, middle position, self-rc flag, hash) from SplitKmer rolling must equal the from-scratch windows of the model, hash == hash of a fresh SplitKmer over the window alone, two-strand hash symmetric. Non-trivial: >=2 windows; distinct by (k, strand, sequence)", tier.pick(60_000, 1_500_000), 1000, roll_strategy, check_roll, |c| json!({"k": c.k, "two_strand": c.rc, "seq": lossy(&gen::materialise_rec(&c.rec, c.k, &[]))})),
     ]
 }
